@@ -1,11 +1,22 @@
 """C05 Infinite screen evolves by exactly one row per step, for any history.
 
 E3 (+E2): explicit-state BFS over histories of {add_row, read, print, read_copy, read_twice}
-on the live screen object; the state is the complete object (every attribute), NumPy's
-global RNG and the globals of the three modules involved.  Invariants are evaluated on
-every transition.  The stability clause is decided on the exact second-order model
-(F, G) extracted behaviourally from add_row by basis exhaustion.
+on the live screen object.  The state is what the statement protects: the bytes of the exposed
+screen, the state of every random generator the object holds, NumPy's global RNG and the
+process-wide settings.  Invariants are evaluated on every transition; a read operation must be a
+self-loop AND the rows added after it must be the rows added without it.  Long linear chains
+(thousands of add_row calls on ONE live object, with a same-seed twin that is never read, and
+arrays handed out earlier re-examined later), histories interleaving two screens, and the
+stability clause - decided on the exact second-order model (F, G) extracted behaviourally from
+add_row by basis exhaustion - complete the check.
+
+Everything that relies on how the library is written inside (the attributes _scrn / _R / A_mat /
+B_mat / stencil_coords / reference_coord, one vector of nx normals drawn per add_row) is GUARDED:
+the assumption is tested on the library under test first and, where it does not hold, the clause
+is skipped and counted under a `*_not_claimed` statistic - never a violation.
 """
+import copy
+
 import numpy
 
 from mc import Out, Case
@@ -18,41 +29,66 @@ LEVEL = "model_checking"
 ISOLATE_CASES = True     # every case starts from a pristine process
 ENGINES = ["E3-explicit-state-history-search", "E2-basis-exhaustion"]
 TECHNIQUE = ("explicit-state breadth-first search over operation histories on the live screen object "
-             "(canonical hash of the whole object + global RNG + module globals), invariants on every "
-             "transition; stability decided on the linear-Gaussian recursion extracted by basis exhaustion")
+             "(canonical hash of the exposed screen + the object's generators + global RNG + process settings), "
+             "invariants on every transition, reads judged as self-loops and by the rows added after them; "
+             "linear chains of thousands of add_row calls on one live object with a never-read same-seed twin and "
+             "held results; two-screen interleavings against solo runs; stability decided on the linear-Gaussian "
+             "recursion extracted by basis exhaustion")
 RULE = ("case = (variant, requested size, atmosphere, seed, stencil depth); BFS over all histories of the "
         "operation alphabet to the depth bound with de-duplication on the canonical state hash; "
         "non-trivial = requested size differs from internal size, or size >= 3")
 ASSUMPTIONS = [
-    "state = all attributes of the object + numpy global RandomState + non-callable globals of "
-    "infinitephasescreen/phasescreen/turb; an operation cannot depend on anything else",
+    "state = bytes of the exposed screen + state of every numpy Generator/RandomState reachable from the object's "
+    "attributes + numpy global RandomState + process-wide settings; anything else an operation could depend on is "
+    "covered behaviourally (rows added after a read equal the rows added without it; same-seed twin in the chains)",
     "depth bound per tier; because read/print operations are verified to be self-loops in every reached "
     "state, every history of that length over the alphabet is covered, not only the de-duplicated ones",
     "stability clause: von Karman variant only, on the configuration lattice; covariance compared with an "
-    "independent float64 von Karman covariance (mc/refmodels/vk_cov.py)",
+    "independent float64 von Karman covariance (mc/refmodels/vk_cov.py); decided by rho(F) < 1 and the fixed-point "
+    "residual, the distance |P - Sigma| being judged with the amplification 1/(1-rho^2) of that residual",
+    "clauses that use the library's private layout (row formula from A_mat/B_mat/stencil_coords and a clone of _R, "
+    "shift of the hidden part of the working array, state/noise injection for the extraction) are evaluated only "
+    "after the layout has been confirmed on the library under test; otherwise they are counted as *_not_claimed",
 ]
-LEVEL_TEXT = ("All histories of add_row/read/print operations up to depth 5 (quick) / 8 (thorough) are explored "
-              "on the real objects for both variants, sizes 2..7 (quick) / 2..12,17,18 (thorough), including sizes whose internal working size "
-              "is larger, with shift/shape/finite/one-row/stream-advance invariants checked on every "
-              "transition; the stability and unique-stationary-covariance clause is decided exactly on the "
+LEVEL_TEXT = ("All histories of add_row/read/print operations up to depth 5 (quick) / 10 (thorough) are explored "
+              "on the real objects for both variants, sizes 2..7,10,11,18 (quick) / 2..12,17,18,20,22,34,40 (thorough) "
+              "plus 1, 33, 64, 65 and corner atmospheres, including sizes whose internal working size "
+              "is larger, with shift/shape/finite/new-row-at-index-0 invariants checked on every "
+              "transition; linear chains of 5000 (quick) / 20000 (thorough) add_row calls on one live object; "
+              "the stability and unique-stationary-covariance clause is decided exactly on the "
               "extracted (F,G) recursion (spectral radius, Lyapunov fixed point, convergence from three "
               "starting covariances).")
 LEVEL_NOTE = ("Trusted: copy.deepcopy as snapshot, numpy/scipy linear algebra, the reference covariance. "
-              "Not covered: sizes above 7 (state-space part), histories longer than the bound if an operation "
-              "had an effect outside the hashed state.")
+              "Not covered: sizes above 65 (18 / 40 for the exhaustive enumeration), histories longer than the chain "
+              "bound, state kept outside the object that neither changes the rows added next nor the twin comparison.")
 
 ATMOS = [(0.1, 0.2, 25.0), (0.5, 0.1, 10.0), (0.05, 0.2, 100.0), (0.25, 0.15, 5.0)]
 OPS = ["add_row", "read", "print", "read_copy", "read_twice"]
+READ_OPS = OPS[1:]
+STARTS = ["piston1e4", "piston1e8", "tilt", "spike"]
+# further pixel_scale / L0 ratios for the stability lattice (ATMOS[1] and ATMOS[3] share the ratio 0.05)
+RATIO_ATMOS = [(0.25, 0.15, 25.0), (0.5, 0.15, 2.5), (1.0, 0.2, 1.0), (0.02, 0.1, 10.0)]
 
 
 def BOUNDS(tier):
-    return {"sizes": list(range(2, 8)) + [10, 11, 18] if tier == "quick" else list(range(2, 13)) + [17, 18, 20, 22, 34, 40],
-            "atmospheres(pixel_scale,r0,L0)": ATMOS[:2 if tier == "quick" else 4],
-            "seeds": [1, 2] if tier == "quick" else [1, 2, 3], "ops": OPS, "depth": 5 if tier == "quick" else 10,
-            "vk_n_columns": [2] if tier == "quick" else [1, 2, 3],
-            "fried_stencil_length_factor": [4] if tier == "quick" else [1, 2, 4],
-            "stability_sizes": list(range(2, 7 if tier == "quick" else 13)),
-            "big_sizes(depth 3 histories)": [33, 64, 65]}
+    q = tier == "quick"
+    return {"sizes": list(range(2, 8)) + [10, 11, 18] if q else list(range(2, 13)) + [17, 18, 20, 22, 34, 40],
+            "atmospheres(pixel_scale,r0,L0)": ATMOS[:2 if q else 4],
+            "seeds": [1, 2] if q else [1, 2, 3], "ops": OPS, "depth": 5 if q else 10,
+            "vk_n_columns": [2] if q else [1, 2, 3],
+            "fried_stencil_length_factor": [4] if q else [1, 2, 4],
+            "stability_sizes": list(range(2, 7 if q else 13)),
+            "stability_big_sizes": [33, 64, 65],
+            "stability_extra_ratio_atmospheres": RATIO_ATMOS,
+            "big_sizes(depth 3 histories)": [33, 64, 65],
+            "chain_steps": 5000 if q else 20000, "chain_steps_secondary": 300 if q else 2000,
+            "start_screens(depth 3 histories)": STARTS,
+            "conventions(depth 3 histories)": ["N=1", "random_seed=None", "Generator seed", "SeedSequence seed",
+                                               "numpy integer N", "stencil_length_factor 3, 5, 8"],
+            "pair_history_length": 18,
+            "fried_transition_sizes": [3, 5] if q else [3, 5, 9],
+            "newest_row_depends_on_draws(variant,n,depth)": [["fried", 6, 4], ["fried", 5, 2], ["fried", 10, 1], ["vk", 5, 2]],
+            "largest_size": 65}
 
 
 def cases(tier):
@@ -114,6 +150,56 @@ def cases(tier):
                        {"kind": "hist", "variant": variant, "n": n, "atm": list(atm), "seed": 1, "sd": sd, "depth": 3,
                         "siblings": True}, True)
 
+    # ---------------------------------------------------------------- added after the review of this check
+    # stability lattice: more pixel_scale/L0 ratios, other stencil depths in the quick tier, the big size classes
+    for n, nc in ((4, 1), (4, 3), (6, 1), (6, 3)) if tier == "quick" else ():
+        yield Case("stability:vk:n=%d:atm=0:ncol=%d" % (n, nc), {"kind": "stab", "n": n, "atm": list(ATMOS[0]), "ncol": nc})
+    for n, nc in ((4, 2), (7, 2), (9, 3)) if tier == "quick" else ((4, 1), (4, 2), (7, 2), (9, 3), (12, 2)):
+        for atm in RATIO_ATMOS:
+            yield Case("stability:vk:n=%d:ps=%g,r0=%g,L0=%g:ncol=%d:ratio" % ((n,) + atm + (nc,)),
+                       {"kind": "stab", "n": n, "atm": list(atm), "ncol": nc})
+    for n, nc in ((33, 2), (64, 2), (65, 3)):
+        yield Case("stability:vk:n=%d:big:ncol=%d" % (n, nc), {"kind": "stab", "n": n, "atm": list(ATMOS[0]), "ncol": nc})
+    # long linear chains on ONE live object (no snapshots): per-step clauses, a same-seed twin that is never read,
+    # arrays handed out earlier re-examined after later steps
+    long_, short_ = b["chain_steps"], b["chain_steps_secondary"]
+    for variant, n, ai, sd, steps in (("vk", 8, 0, 2, long_), ("fried", 6, 0, 4, long_), ("vk", 5, 1, 2, short_),
+                                      ("vk", 3, 0, 3, short_), ("vk", 16, 0, 1, short_), ("fried", 5, 1, 2, short_),
+                                      ("fried", 9, 0, 1, short_), ("fried", 12, 0, 4, short_), ("fried", 2, 1, 4, short_)):
+        yield Case("chain:%s:n=%d:atm=%d:seed=1:sd=%d" % (variant, n, ai, sd),
+                   {"kind": "chain", "variant": variant, "n": n, "atm": list(ATMOS[ai]), "seed": 1, "sd": sd,
+                    "steps": steps}, True)
+    yield Case("chain:fried:n=6:ps=0.5,r0=0.05,L0=100:seed=2:sd=4",
+               {"kind": "chain", "variant": "fried", "n": 6, "atm": [0.5, 0.05, 100.0], "seed": 2, "sd": 4, "steps": short_}, True)
+    # start screens the FFT initial screen never produces (the recursion is claimed for ANY starting screen)
+    for variant, n, sd in (("vk", 5, 2), ("fried", 6, 4)):
+        for start in STARTS:
+            yield Case("hist:%s:n=%d:atm=0:seed=1:sd=%d:start=%s" % (variant, n, sd, start),
+                       {"kind": "hist", "variant": variant, "n": n, "atm": list(ATMOS[0]), "seed": 1, "sd": sd, "depth": 3,
+                        "start": start}, True)
+    # parameter conventions
+    for variant, n, sd, conv in (("vk", 1, 1, "int"), ("fried", 1, 4, "int"), ("vk", 4, 2, "none"), ("fried", 4, 4, "none"),
+                                 ("vk", 4, 2, "generator"), ("fried", 6, 4, "generator"), ("vk", 3, 2, "seedseq"),
+                                 ("fried", 3, 2, "seedseq"), ("vk", 6, 2, "npint"), ("fried", 6, 4, "npint"),
+                                 ("fried", 4, 3, "int"), ("fried", 7, 5, "int"), ("fried", 3, 8, "int")):
+        yield Case("hist:%s:n=%d:atm=0:sd=%d:conv=%s" % (variant, n, sd, conv),
+                   {"kind": "hist", "variant": variant, "n": n, "atm": list(ATMOS[0]), "seed": 1, "sd": sd, "depth": 3,
+                    "conv": conv}, True)
+    # two live screens in one process, operations interleaved
+    for va, vb, n, sd_a, sd_b in (("vk", "vk", 5, 2, 2), ("fried", "fried", 6, 4, 4), ("vk", "fried", 5, 2, 2)):
+        yield Case("pair:%s+%s:n=%d:atm=0" % (va, vb, n),
+                   {"kind": "pair", "va": va, "vb": vb, "n": n, "atm": list(ATMOS[0]), "sd_a": sd_a, "sd_b": sd_b}, True)
+    # "the newly generated row at index 0": the newest exposed row must depend on the draws of the step that made it
+    for variant, n, sd in (("fried", 6, 4), ("fried", 5, 2), ("fried", 10, 1), ("vk", 5, 2)):
+        yield Case("newrow:%s:n=%d:atm=0:sd=%d" % (variant, n, sd),
+                   {"kind": "newrow", "variant": variant, "n": n, "atm": list(ATMOS[0]), "sd": sd}, True)
+    # Fried variant: the transition of the whole working array must not be explosive ("finite after any number of steps")
+    for n in b["fried_transition_sizes"]:
+        for slf in ((1, 4) if tier == "quick" else (1, 2, 4)):
+            yield Case("fried_transition:n=%d:slf=%d" % (n, slf), {"kind": "fried_T", "n": n, "atm": list(ATMOS[0]), "slf": slf})
+
+
+# --------------------------------------------------------------------------------------------- construction
 
 def _construct(variant, n, atm, seed, sd):
     from aotools.turbulence import infinitephasescreen as ips
@@ -121,6 +207,20 @@ def _construct(variant, n, atm, seed, sd):
     if variant == "vk":
         return ips.PhaseScreenVonKarman(n, ps, r0, L0, random_seed=seed, n_columns=sd)
     return ips.PhaseScreenKolmogorov(n, ps, r0, L0, random_seed=seed, stencil_length_factor=sd)
+
+
+def _construct_conv(p):
+    conv = p.get("conv", "int")
+    n, seed = p["n"], p["seed"]
+    if conv == "none":
+        seed = None
+    elif conv == "generator":
+        seed = numpy.random.default_rng(5)
+    elif conv == "seedseq":
+        seed = numpy.random.SeedSequence(7)
+    elif conv == "npint":
+        n, seed = numpy.int64(n), numpy.int32(seed)
+    return _construct(p["variant"], n, p["atm"], seed, p["sd"])
 
 
 def _siblings_first(variant, n, atm, seed, sd):
@@ -140,17 +240,211 @@ def _siblings_first(variant, n, atm, seed, sd):
 def evaluate(p):
     if p.get("siblings"):
         _siblings_first(p.get("variant", "vk"), p["n"], p["atm"], p.get("seed", 1), p.get("sd", p.get("ncol", 2)))
-    if p["kind"] == "hist":
+    kind = p["kind"]
+    if kind == "hist":
         return _hist(p)
+    if kind == "chain":
+        return _chain(p)
+    if kind == "pair":
+        return _pair(p)
+    if kind == "fried_T":
+        return _fried_transition(p)
+    if kind == "newrow":
+        return _newrow(p)
     return _stability(p)
 
+
+# --------------------------------------------------------------------------------------------- observable state
+
+def _generators(obj, depth=0, path="", seen=None, out=None):
+    """state of every random generator reachable from the attributes of `obj` (whatever they are called)"""
+    if out is None:
+        out, seen = [], set()
+    if depth > 3 or id(obj) in seen:
+        return out
+    seen.add(id(obj))
+    if isinstance(obj, numpy.random.Generator):
+        out.append((path, repr(obj.bit_generator.state), getattr(obj, "_pos", None)))
+    elif isinstance(obj, numpy.random.RandomState):
+        out.append((path, digest(list(obj.get_state()))))
+    elif isinstance(obj, numpy.random.BitGenerator):
+        out.append((path, repr(obj.state)))
+    elif isinstance(obj, dict):
+        for k in sorted(obj, key=str):
+            _generators(obj[k], depth + 1, path + "/" + str(k), seen, out)
+    elif isinstance(obj, (list, tuple)) and len(obj) <= 16:
+        for i, x in enumerate(obj):
+            _generators(x, depth + 1, path + "/%d" % i, seen, out)
+    elif hasattr(obj, "__dict__") and not isinstance(obj, (type, numpy.ndarray)) and not callable(obj):
+        _generators(vars(obj), depth, path, seen, out)
+    return out
+
+
+def _observable(scr):
+    """what the statement protects of one screen: the exposed values (not their memory layout) and the random stream"""
+    a = numpy.asarray(scr.scrn)
+    return digest([a, repr(sorted(_generators(scr)))])
+
+
+class _ObsWorld(ss.World):
+    def components(self):
+        c = {"obj:" + k: _observable(v) for k, v in self.objects.items()}
+        st = numpy.random.get_state()
+        c["numpy.global_rng"] = digest([st[0], st[1], st[2], st[3], st[4]])
+        c["process_settings"] = ss.process_settings()
+        return c
+
+
+def _hidden_digest(scr, modules):
+    """module globals and class attributes: not part of the protected state (a cache or a counter there is the
+    library's own business); a change is recorded as an observation only"""
+    parts = [ss.module_globals_digest(modules)]
+    for klass in type(scr).__mro__[:-1]:
+        for k, v in sorted(vars(klass).items()):
+            if k[:2] == "__" or callable(v) or isinstance(v, (property, staticmethod, classmethod)):
+                continue
+            parts.append(klass.__name__ + "." + k + "=" + ss.obj_digest(v))
+    return digest(parts)
+
+
+def _apply(s, op):
+    if op == "add_row":
+        return s.add_row()
+    if op == "read":
+        return s.scrn
+    if op == "print":
+        return (repr(s), str(s))
+    if op == "read_copy":
+        return numpy.array(s.scrn)
+    if op == "read_twice":
+        a = s.scrn
+        b = s.scrn
+        return (a, b)
+    raise ValueError(op)
+
+
+def _bytes(a):
+    return numpy.ascontiguousarray(numpy.asarray(a)).tobytes()
+
+
+def _next_rows(s, k):
+    return [_bytes(s.add_row()) for _ in range(k)]
+
+
+# --------------------------------------------------------------------------------------------- guarded row formula
+
+def _working(s, n):
+    """the library's working array, if it has the layout the guarded clauses assume: a 2-d float array `_scrn`, at
+    least n x n, whose top-left n x n corner is the exposed screen.  None otherwise."""
+    try:
+        w = getattr(s, "_scrn", None)
+        if not isinstance(w, numpy.ndarray) or w.ndim != 2 or w.shape[0] < n or w.shape[1] < n or w.dtype.kind != "f":
+            return None
+        e = numpy.asarray(s.scrn)
+        if e.shape != (n, n) or _bytes(w[:n, :n]) != _bytes(e):
+            return None
+        return w
+    except Exception:
+        return None
+
+
+def _formula_row(s, n, fried):
+    """Reference for the next row of `s` (evaluated BEFORE the step): A.stencil + B.noise with the library's own
+    A_mat / B_mat / stencil_coords (/ reference_coord) and the next draws of a CLONE of its generator.
+    -> (row, clone, scale) or None when the private layout is not the assumed one (never raises)."""
+    try:
+        w = _working(s, n)
+        g = copy.deepcopy(getattr(s, "_R", None))
+        A, B, sc = getattr(s, "A_mat", None), getattr(s, "B_mat", None), getattr(s, "stencil_coords", None)
+        if w is None or type(g) is not numpy.random.Generator:
+            return None
+        if not all(isinstance(x, numpy.ndarray) and x.ndim == 2 for x in (A, B, sc)):
+            return None
+        if sc.shape[1] != 2 or A.shape != (B.shape[0], sc.shape[0]) or B.shape[0] != w.shape[1]:
+            return None
+        b = g.normal(0, 1, size=B.shape[1])
+        z = w[(sc[:, 0], sc[:, 1])].astype(float)
+        if fried:
+            ref = float(w[s.reference_coord])
+            row = A.dot(z - ref) + B.dot(b) + ref
+        else:
+            row = A.dot(z) + B.dot(b)
+        return row, g, max(1.0, float(numpy.max(numpy.abs(w))))
+    except Exception:
+        return None
+
+
+def _check_new_row(o, pre, s, new_exposed, n, sub):
+    """pre = _formula_row() of the state before the step; s = the object after it"""
+    if pre is None:
+        o.stat("row_formula_not_claimed", 1)
+        return
+    row, g, scale = pre
+    try:
+        same_draws = (type(getattr(s, "_R", None)) is numpy.random.Generator and
+                      repr(g.bit_generator.state) == repr(s._R.bit_generator.state))
+    except Exception:
+        same_draws = False
+    if not same_draws:
+        # the statement does not say how many normals a step draws, or in which order: the reference is only valid
+        # when the library's generator is where the clone is after ONE vector of nx normals
+        o.stat("draw_layout_not_claimed", 1)
+        return
+    o.stat("draw_layout_confirmed", 1)
+    w = _working(s, n)
+    # tolerance 1e-10 relative to the largest |phase|: three other evaluation orders of the same expression differ by
+    # <= 2.4e-15 (sum |A| per row <= 50), so the margin is > 1e4
+    if w is not None and w.shape[1] == row.shape[0]:
+        err = float(numpy.max(numpy.abs(w[0] - row))) / scale
+    elif new_exposed.shape == (n, n):
+        err = min(float(numpy.max(numpy.abs(new_exposed[0] - row[j:j + n]))) for j in range(row.shape[0] - n + 1)) / scale
+    else:
+        return
+    o.close("new_row_is_A_stencil_plus_B_noise", err, 1e-10, sub=sub)
+    if new_exposed.shape == (n, n) and row.shape[0] >= n:
+        # "with the newly generated row at index 0" of the EXPOSED screen (any contiguous crop of the internal row)
+        err = min(float(numpy.max(numpy.abs(new_exposed[0] - row[j:j + n]))) for j in range(row.shape[0] - n + 1)) / scale
+        o.close("newest_row_is_exposed_at_index_0", err, 1e-10, sub=sub)
+
+
+def _check_step(o, old_exposed, old_working, s, result, n, sub):
+    """clauses of one add_row on exposed values; old_* are copies taken before the step. -> new exposed screen"""
+    new_exposed = numpy.asarray(s.scrn)
+    o.check("exposed_shape", new_exposed.shape == (n, n), sub=sub, detail=new_exposed.shape)
+    o.check("finite", bool(numpy.all(numpy.isfinite(new_exposed))), sub=sub)
+    o.check("shift_down_by_one_row_bit_exact",
+            new_exposed.shape == old_exposed.shape and _bytes(new_exposed[1:]) == _bytes(old_exposed[:-1]), sub=sub)
+    o.check("return_value_is_exposed_screen", numpy.array_equal(numpy.asarray(result), new_exposed), sub=sub)
+    w = _working(s, n)
+    if old_working is not None and w is not None and w.shape == old_working.shape:
+        # hidden rows of the working array (Fried variant): they feed the stencil of later steps
+        o.check("working_array_shifted", _bytes(w[1:]) == _bytes(old_working[:-1]), sub=sub)
+    else:
+        o.stat("working_array_not_claimed", 1)
+    return new_exposed
+
+
+def _start_image(w, start):
+    img = numpy.array(w, dtype=float)
+    if start == "piston1e4":
+        img += 1e4
+    elif start == "piston1e8":
+        img += 1e8
+    elif start == "tilt":
+        img += 1e3 * numpy.arange(img.shape[0])[:, None] - 7e2 * numpy.arange(img.shape[1])[None, :]
+    elif start == "spike":
+        img[min(1, img.shape[0] - 1), img.shape[1] // 2] = 3e6
+    return img
+
+
+# --------------------------------------------------------------------------------------------- histories (BFS)
 
 def _hist(p):
     from scipy import linalg
     from aotools.turbulence import infinitephasescreen as ips, phasescreen, turb
     o = Out()
     try:
-        scr = _construct(p["variant"], p["n"], p["atm"], p["seed"], p["sd"])
+        scr = _construct_conv(p)
     except linalg.LinAlgError:
         # "for which construction succeeds": outside the property
         o.check("construction_outside_domain", True)
@@ -159,86 +453,77 @@ def _hist(p):
         o.stat("transitions", 1)
         return o
     o.stat("lib_calls", 1)
-    n = p["n"]
+    n = int(p["n"])
     fried = p["variant"] == "fried"
-    world = ss.World({"scr": scr}, modules=(ips, phasescreen, turb))
-    o.check("initial_shape", scr.scrn.shape == (n, n), detail=scr.scrn.shape)
+    # a same-seed twin that is stepped without ever being read (the search reads the screen under test before its
+    # first add_row already): the all-add_row history must give the same rows
+    twin_rows = []
+    if p.get("conv", "int") in ("int", "npint") and not p.get("start"):
+        twin_rows = _next_rows(_construct_conv(p), min(3, p["depth"]))
+        o.stat("lib_calls", 1 + len(twin_rows))
+    modules = (ips, phasescreen, turb)
+    if p.get("start"):
+        # any starting screen: put one in through the working array (guarded: it must read back through .scrn)
+        w = _working(scr, n)
+        ok = False
+        if w is not None:
+            keep = w
+            try:
+                img = _start_image(w, p["start"])
+                scr._scrn = img
+                ok = _bytes(scr.scrn) == _bytes(img[:n, :n])
+            except Exception:
+                ok = False
+            if not ok:
+                scr._scrn = keep
+        o.stat("start_screen_injected" if ok else "start_injection_not_claimed", 1)
+    world = _ObsWorld({"scr": scr})
+    o.check("initial_shape", numpy.asarray(scr.scrn).shape == (n, n), detail=numpy.asarray(scr.scrn).shape)
     o.check("initial_finite", bool(numpy.all(numpy.isfinite(scr.scrn))))
 
     def alphabet(w):
         return OPS
 
-    def apply_op(w, op):
+    pre_state = {}
+    future = {}
+
+    def apply_with_pre(w, op):
         s = w.objects["scr"]
+        pre_state["hidden"] = _hidden_digest(s, modules)
         if op == "add_row":
-            return s.add_row()
-        if op == "read":
-            return s.scrn
-        if op == "print":
-            return (repr(s), str(s))
-        if op == "read_copy":
-            return numpy.array(s.scrn)
-        if op == "read_twice":
-            a = s.scrn
-            b = s.scrn
-            return (a, b)
+            pre_state["exposed"] = numpy.array(s.scrn)
+            ww = _working(s, n)
+            pre_state["working"] = None if ww is None else numpy.array(ww)
+            pre_state["formula"] = _formula_row(s, n, fried)
+        else:
+            # the rows the next two add_row calls give WITHOUT the read (on a copy of this state)
+            k = _observable(s)
+            if k not in future:
+                future.clear()
+                future[k] = _next_rows(copy.deepcopy(s), 2)
+            pre_state["future"] = future[k]
+        return _apply(s, op)
 
     def on_transition(hist, op, pre, w, result, loop):
         s = w.objects["scr"]
         sub = "h=%s:op=%s" % ("".join(x[0] if x != "add_row" else "A" for x in hist) or "-", op)
+        if _hidden_digest(s, modules) != pre_state["hidden"]:
+            o.stat("module_or_class_state_changed(observation)", 1)
         if op != "add_row":
             o.check("read_is_self_loop", loop, sub=sub, detail={"changed": ss.changed(pre, w.components())})
             if op == "read_twice":
                 o.check("reads_agree", numpy.array_equal(result[0], result[1]), sub=sub)
+            # ... and whatever the library keeps elsewhere: the rows added next are the rows added without the read
+            o.check("rows_after_read_equal_rows_without_read", _next_rows(copy.deepcopy(s), 2) == pre_state["future"], sub=sub)
+            o.stat("lib_calls", 2)
             return
-        # ---- add_row: compare with the pre-state (kept by the closure below)
-        old = pre_state["scr"]
-        new_exposed = s.scrn
-        old_exposed = old.scrn
-        o.check("exposed_shape", new_exposed.shape == (n, n), sub=sub, detail=new_exposed.shape)
-        o.check("finite", bool(numpy.all(numpy.isfinite(s._scrn))), sub=sub)
-        o.check("shift_down_by_one_row_bit_exact",
-                new_exposed.shape == old_exposed.shape and
-                numpy.ascontiguousarray(new_exposed[1:]).tobytes() == numpy.ascontiguousarray(old_exposed[:-1]).tobytes(),
-                sub=sub)
-        o.check("working_array_shape_unchanged", s._scrn.shape == old._scrn.shape, sub=sub,
-                detail=[old._scrn.shape, s._scrn.shape])
-        if s._scrn.shape == old._scrn.shape:
-            o.check("working_array_shifted",
-                    numpy.ascontiguousarray(s._scrn[1:]).tobytes() == numpy.ascontiguousarray(old._scrn[:-1]).tobytes(),
-                    sub=sub)
-        o.check("return_value_is_exposed_screen", numpy.array_equal(numpy.asarray(result), new_exposed), sub=sub)
-        # reference recursion from the previous state with the next draws of a cloned generator
-        import copy
-        g = copy.deepcopy(old._R)
-        b = g.normal(0, 1, size=old.nx_size)
-        z = old._scrn[(old.stencil_coords[:, 0], old.stencil_coords[:, 1])].astype(float)
-        if fried:
-            ref = old._scrn[old.reference_coord]
-            row = old.A_mat.dot(z - ref) + old.B_mat.dot(b) + ref
-        else:
-            row = old.A_mat.dot(z) + old.B_mat.dot(b)
-        scale = max(1.0, float(numpy.max(numpy.abs(old._scrn))))
-        err = float(numpy.max(numpy.abs(s._scrn[0] - row))) / scale if s._scrn.shape[1] == row.shape[0] else float("inf")
-        o.close("new_row_is_A_stencil_plus_B_noise", err, 1e-10, sub=sub)
-        o.check("generator_advanced_by_exactly_one_row_of_normals",
-                repr(g.bit_generator.state) == repr(s._R.bit_generator.state), sub=sub)
-        # nothing else changes
+        _check_step(o, pre_state["exposed"], pre_state["working"], s, result, n, sub)
+        if len(hist) < len(twin_rows) and all(x == "add_row" for x in hist):
+            o.check("reads_do_not_change_later_rows", _bytes(result) == twin_rows[len(hist)], sub=sub)
+        _check_new_row(o, pre_state["formula"], s, numpy.asarray(s.scrn), n, sub)
+        # nothing else changes: the process-wide random stream and settings
         ch = [c for c in ss.changed(pre, w.components()) if c != "obj:scr"]
         o.check("nothing_else_changes", not ch, sub=sub, detail=ch)
-        a = {k: ss.obj_digest(v) for k, v in vars(old).items() if k not in ("_scrn", "_R")}
-        bb = {k: ss.obj_digest(v) for k, v in vars(s).items() if k not in ("_scrn", "_R")}
-        o.check("other_attributes_unchanged", a == bb, sub=sub, detail=ss.changed(a, bb))
-
-    # keep the pre-state object for add_row comparisons: wrap apply_op
-    pre_state = {}
-    real_apply = apply_op
-
-    def apply_with_pre(w, op):
-        if op == "add_row":
-            import copy
-            pre_state["scr"] = copy.deepcopy(w.objects["scr"])
-        return real_apply(w, op)
 
     st = ss.bfs(world, alphabet, apply_with_pre, on_transition, p["depth"])
     o.stat("states", st["states"])
@@ -248,9 +533,210 @@ def _hist(p):
     o.check("one_new_state_per_added_row", st["states"] == p["depth"] + 1, detail=st)
     if st["capped"]:
         o.stat("caps_hit", 1)
-    o.note("internal_size", [int(scr.nx_size), int(scr.stencil_length)])
-    o.outcome([p["variant"], p["n"], digest(scr.scrn)])
+    try:
+        o.note("internal_size", [int(scr.nx_size), int(scr.stencil_length)])
+    except Exception:
+        pass
+    if p.get("conv") == "none":
+        o.outcome([p["variant"], n, "unseeded"])
+    else:
+        o.outcome([p["variant"], n, p.get("start"), p.get("conv"), digest(numpy.asarray(scr.scrn))])
     return o
+
+
+# --------------------------------------------------------------------------------------------- linear chains
+
+def _chain(p):
+    """thousands of add_row calls on ONE live object, no snapshots: per-step clauses on the exposed screen, the guarded
+    row formula, reads at selected steps (self-loop on the observable state), a same-seed twin that is never read
+    (bit-identical rows), arrays handed out earlier re-examined after later steps"""
+    o = Out()
+    n, fried, steps = p["n"], p["variant"] == "fried", p["steps"]
+    scr = _construct(p["variant"], n, p["atm"], p["seed"], p["sd"])
+    twin = _construct(p["variant"], n, p["atm"], p["seed"], p["sd"])
+    o.stat("lib_calls", 2)
+    # the twin is NEVER read (not even before its first add_row); the screen under test is read before its first step
+    read_at = set([0, 1, 2, 3, 5, 8, 13, 21, 34, 55, 89, 144, 233, 377]) | set(range(500, steps, 500))
+    try:
+        sl = int(numpy.asarray(getattr(scr, "_scrn")).shape[0])
+    except Exception:
+        sl = 4 * n
+    hold_at = set([0, 1, 2, 3, sl - 1, sl, sl + 1, 2 * sl, steps // 2])
+    holds = []       # [label, array handed out, its bytes at hand-out, steps survived]
+    nfail0 = 0
+    for i in range(1, steps + 1):
+        if (i - 1) in read_at:
+            k0 = _observable(scr)
+            for op in READ_OPS:
+                r = _apply(scr, op)
+                o.check("read_is_self_loop", _observable(scr) == k0, sub="step=%d:op=%s" % (i - 1, op))
+                if op == "read" and (i - 1) in hold_at:
+                    holds.append(["read@%d" % (i - 1), r, _bytes(r)])
+        old_exposed = numpy.array(scr.scrn)
+        ww = _working(scr, n)
+        old_working = None if ww is None else numpy.array(ww)
+        pre = _formula_row(scr, n, fried)
+        res = scr.add_row()
+        sub = "step=%d" % i
+        new_exposed = _check_step(o, old_exposed, old_working, scr, res, n, sub)
+        _check_new_row(o, pre, scr, new_exposed, n, sub)
+        o.check("reads_do_not_change_later_rows", _bytes(twin.add_row()) == _bytes(new_exposed), sub=sub)
+        if i in hold_at:
+            holds.append(["add_row@%d" % i, res, _bytes(res)])
+        if holds and (i <= 3 * sl + 8 or i % 64 == 0 or i == steps):
+            for h in list(holds):
+                same = _bytes(h[1]) == h[2]
+                o.check("handed_out_screen_keeps_its_values", same, sub="held=%s:seen_after_step=%d" % (h[0], i))
+                if not same:
+                    holds.remove(h)
+        if len(o.failures) > nfail0 + 40:
+            o.note("chain_stopped_at_step", i)     # enough evidence; the ids of the first failures are stable
+            break
+    o.stat("lib_calls", 2 * steps)
+    o.stat("states", steps + 1)
+    o.stat("transitions", steps + 5 * len([x for x in read_at if x < steps]))
+    o.stat("traces_validated_against_impl", steps)
+    o.outcome([p["variant"], n, steps, digest(numpy.asarray(scr.scrn))])
+    return o
+
+
+# --------------------------------------------------------------------------------------------- two screens
+
+def _pair(p):
+    """screens a and b live in one process; operations on them interleaved.  An operation on one must leave the
+    observable state of the other alone, and every screen must produce exactly the rows a same-seed screen produces
+    when it is used on its own."""
+    o = Out()
+    n, atm = p["n"], p["atm"]
+    mk = {"a": lambda: _construct(p["va"], n, atm, 1, p["sd_a"]), "b": lambda: _construct(p["vb"], n, atm, 2, p["sd_b"])}
+    script = [("a", "add_row"), ("b", "add_row"), ("b", "add_row"), ("a", "read"), ("a", "add_row"), ("b", "print"),
+              ("a", "add_row"), ("a", "add_row"), ("b", "add_row"), ("a", "print"), ("b", "read_twice"), ("b", "add_row"),
+              ("a", "add_row"), ("b", "add_row"), ("a", "read_copy"), ("a", "add_row"), ("b", "add_row"), ("a", "add_row")]
+    live = {"a": mk["a"](), "b": mk["b"]()}
+    rows = {"a": [_bytes(live["a"].scrn)], "b": [_bytes(live["b"].scrn)]}
+    for i, (who, op) in enumerate(script):
+        other = "b" if who == "a" else "a"
+        k_other = _observable(live[other])
+        r = _apply(live[who], op)
+        o.check("operation_on_one_screen_leaves_the_other_unchanged", _observable(live[other]) == k_other,
+                sub="i=%d:op=%s.%s" % (i, who, op))
+        if op == "add_row":
+            rows[who].append(_bytes(r))
+    for who in ("a", "b"):
+        solo = mk[who]()
+        got = [_bytes(solo.scrn)] + [_bytes(solo.add_row()) for _ in range(len(rows[who]) - 1)]
+        for k, (x, y) in enumerate(zip(rows[who], got)):
+            o.check("interleaved_history_equals_solo_history", x == y, sub="screen=%s:add_row=%d" % (who, k))
+    o.stat("lib_calls", 2 * len(script) + 4)
+    o.stat("transitions", len(script))
+    o.stat("traces_validated_against_impl", len(script))
+    o.outcome([p["va"], p["vb"], n, digest(rows["a"][-1])])
+    return o
+
+
+# --------------------------------------------------------------------------------------------- extraction (E2)
+
+class _NotClaimed(Exception):
+    """an assumption of the check's own instrumentation does not hold on the library under test"""
+
+
+class _Script(SeqGenerator):
+    """scripted normal draws that can be re-loaded"""
+
+    def load(self, values):
+        self._values = numpy.asarray(values, dtype=float).reshape(-1)
+        self._pos = 0
+        self.calls = []
+
+
+def _scripted_screen(variant, n, atm, sd):
+    """a screen whose Gaussian draws come from a script.  First through the public parameter (random_seed accepts what
+    numpy.random.default_rng accepts, and default_rng hands a Generator through unaltered), then by replacing the
+    attribute _R.  LinAlgError from the construction is passed on; anything else means 'not claimed'."""
+    from scipy import linalg
+    gen = _Script()
+    try:
+        scr = _construct(variant, n, atm, gen, sd)
+        if not gen.calls:
+            scr.add_row()
+        if gen.calls:
+            return scr, gen, "constructor"
+    except linalg.LinAlgError:
+        raise
+    except Exception:
+        pass
+    scr = _construct(variant, n, atm, 1, sd)
+    try:
+        if isinstance(getattr(scr, "_R", None), numpy.random.Generator):
+            gen.load(())
+            scr._R = gen
+            scr.add_row()
+            if gen.calls:
+                return scr, gen, "attribute"
+    except Exception:
+        pass
+    raise _NotClaimed("no way found to script the Gaussian draws of the screen")
+
+
+def _set_state(scr, img, n):
+    """make `img` the working array of the screen; confirmed by reading it back through .scrn"""
+    try:
+        w = getattr(scr, "_scrn", None)
+        if isinstance(w, numpy.ndarray) and w.shape == img.shape:
+            scr._scrn = img.copy()
+            if _bytes(scr.scrn) == _bytes(img[:n, :n]):
+                return "attribute"
+    except Exception:
+        pass
+    try:
+        if img.shape == (n, n):
+            v = scr.scrn
+            v[...] = img            # the exposed screen is documented as a window onto the object's data
+            if _bytes(scr.scrn) == _bytes(img):
+                return "view"
+    except Exception:
+        pass
+    raise _NotClaimed("no way found to set the state of the screen")
+
+
+def _step(scr, gen, img, noise, n, exact_layout=False):
+    """one add_row from state `img` with scripted draws -> newest exposed row (+ the hidden working array if any)"""
+    _set_state(scr, img, n)
+    gen.load(noise)
+    try:
+        scr.add_row()
+        e = numpy.array(scr.scrn, dtype=float)
+    except Exception as ex:
+        raise _NotClaimed("add_row on an injected state raised %r" % (ex,))
+    if e.shape != (n, n) or _bytes(e[1:]) != _bytes(numpy.asarray(img[:n - 1, :n], dtype=float)):
+        raise _NotClaimed("injected state not carried by add_row")
+    # (zero-innovation steps need no draw in this very step: the script has only ever answered 0 until then, and that
+    # the library draws from it was confirmed when the screen was made)
+    if exact_layout and [tuple(c) for c in gen.calls] != [(len(noise),)]:
+        # unit draw vectors only mean 'column k of B' when a step asks for exactly one vector of that many normals
+        raise _NotClaimed("a step does not draw exactly one vector of %d normals: %r" % (len(noise), gen.calls[:3]))
+    return e
+
+
+def _extract_L(scr, gen, n):
+    """response of the new row to every pixel of the n x n state (zero innovation: every scripted draw is 0)"""
+    L = numpy.zeros((n, n * n))
+    zero = numpy.zeros(n)
+    for k in range(n * n):
+        img = numpy.zeros((n, n))
+        img.reshape(-1)[k] = 1.0
+        L[:, k] = _step(scr, gen, img, zero, n)[0]
+    return L
+
+
+def _extract_B(scr, gen, n):
+    """response of the new row to every unit draw vector (zero state); needs the one-vector-per-step draw layout"""
+    B = numpy.zeros((n, n))
+    for k in range(n):
+        v = numpy.zeros(n)
+        v[k] = 1.0
+        B[:, k] = _step(scr, gen, numpy.zeros((n, n)), v, n, exact_layout=True)[0]
+    return B
 
 
 def _stability(p):
@@ -261,53 +747,86 @@ def _stability(p):
     o = Out()
     n, (ps, r0, L0), nc = p["n"], p["atm"], p["ncol"]
     try:
-        scr = _construct("vk", n, p["atm"], 1, nc)
+        scr, gen, how = _scripted_screen("vk", n, p["atm"], nc)
     except linalg.LinAlgError:
         o.check("construction_outside_domain", True)
         o.stat("constructions_failed_linalg", 1)
         return o
-    rows, cols = scr._scrn.shape
-    # response of the new row to every pixel of the working array (zero innovation)
-    L = numpy.zeros((cols, rows * cols))
-    for k in range(rows * cols):
-        img = numpy.zeros((rows, cols))
-        img.reshape(-1)[k] = 1.0
-        scr._scrn = img
-        scr._R = SeqGenerator(numpy.zeros(cols))
-        scr.add_row()
-        L[:, k] = scr._scrn[0]
-    B = numpy.zeros((cols, cols))
-    for k in range(cols):
-        v = numpy.zeros(cols)
-        v[k] = 1.0
-        scr._scrn = numpy.zeros((rows, cols))
-        scr._R = SeqGenerator(v)
-        scr.add_row()
-        B[:, k] = scr._scrn[0]
-    o.stat("lib_calls", rows * cols + cols)
-    ns = nc * cols
-    o.close("rows_beyond_stencil_have_no_influence", float(numpy.max(numpy.abs(L[:, ns:]))) if L[:, ns:].size else 0.0, 0.0)
+    except _NotClaimed as ex:
+        o.stat("extraction_not_claimed", 1)
+        o.note("extraction_not_claimed", str(ex))
+        return o
+    o.stat("draws_scripted_through_" + how, 1)
+    cols = n
+    # the model is only as good as the linearity it assumes: superposition and homogeneity on a state of 1e6 times
+    # one pattern plus another (and a non-trivial draw vector).  Rounding of ~n*n_columns products of size 1e6:
+    # measured <= 2.4e-16 relative to the state, other summation orders <= 5e-15; tolerance 1e-11
+    i_, j_ = numpy.indices((n, n))
+    state = 1e6 * numpy.cos(1.0 + 0.7 * i_ + 1.3 * j_) + ((3 * i_ + 5 * j_) % 7 - 3.0) / 4.0
+    bvec = ((numpy.arange(n) * 5) % 9 - 4.0) / 8.0
+    try:
+        L = _extract_L(scr, gen, n)
+        got = _step(scr, gen, state, numpy.zeros(n), n)[0]
+        o.close("recursion_is_linear_in_state", float(numpy.max(numpy.abs(got - L.dot(state.reshape(-1))))) / 1e6, 1e-11)
+    except _NotClaimed as ex:
+        o.stat("extraction_not_claimed", 1)
+        o.note("extraction_not_claimed", str(ex))
+        return o
+    o.stat("lib_calls", n * n + 1)
+    try:
+        B = _extract_B(scr, gen, n)
+        got = _step(scr, gen, state, bvec, n, exact_layout=True)[0]
+        want = L.dot(state.reshape(-1)) + B.dot(bvec)
+        o.close("recursion_is_linear_in_state_and_noise", float(numpy.max(numpy.abs(got - want))) / 1e6, 1e-11)
+        o.stat("lib_calls", n + 1)
+    except _NotClaimed as ex:
+        # (e.g. normals drawn in blocks): the noise gain cannot be read off; stability of F is still decided
+        B = None
+        o.stat("noise_injection_not_claimed", 1)
+        o.note("noise_injection_not_claimed", str(ex))
+    # number of newest rows the new row depends on (n_columns in the unchanged library)
+    infl = [r for r in range(n) if numpy.any(L[:, r * cols:(r + 1) * cols] != 0.0)]
+    nr = max(infl) + 1 if infl else 1
+    o.note("rows_with_influence(n_columns=%d)" % nc, nr)
+    if nr * cols > 700:
+        o.stat("stability_model_too_large_not_claimed", 1)
+        return o
+    ns = nr * cols
     A = L[:, :ns]
     F = numpy.zeros((ns, ns))
     F[:cols, :] = A
-    if nc > 1:
+    if nr > 1:
         F[cols:, :ns - cols] = numpy.eye(ns - cols)
     G = numpy.zeros((ns, cols))
-    G[:cols, :] = B
+    if B is not None:
+        G[:cols, :] = B
     rho = float(numpy.max(numpy.abs(numpy.linalg.eigvals(F))))
     o.check("spectral_radius_below_one", rho < 1.0, measure=rho, tol=1.0)
     o.note("rho_%s" % p["atm"], rho)
-    # reference covariance of the state (rows 0..nc-1, pixel (i,j) at (i*ps, j*ps))
-    pos = numpy.array([(i * ps, j * ps) for i in range(nc) for j in range(cols)])
+    # reference covariance of the state (rows 0..nr-1, pixel (i,j) at (i*ps, j*ps))
+    pos = numpy.array([(i * ps, j * ps) for i in range(nr) for j in range(cols)])
     Sig = vk_cov.covariance_matrix(pos, pos, r0, L0)
     b0 = float(Sig[0, 0])
-    if rho < 1.0:
-        P = linalg.solve_discrete_lyapunov(F, G.dot(G.T))
-        o.close("stationary_covariance_is_von_karman", float(numpy.max(numpy.abs(P - Sig))) / b0, 1e-4,
-                detail={"rho": rho})
-        # von Karman covariance is a fixed point of the recursion
+    if rho < 1.0 and B is None:
+        M, powers = F.copy(), 0
+        while numpy.max(numpy.abs(M)) > 1e-14 and powers < 80:
+            M = M.dot(M)
+            powers += 1
+        o.check("recursion_forgets_any_start", powers < 80 and bool(numpy.all(numpy.isfinite(M))), measure=powers,
+                detail="F^(2^%d) -> 0" % powers)
+    elif rho < 1.0:
+        # von Karman covariance is a fixed point of the recursion: the well-conditioned statement of "the stationary
+        # covariance is the model" (worst 2.6e-7 on the unchanged library, the float32 accuracy of its covariance;
+        # the same under five other ways of inverting the stencil covariance)
         res = F.dot(Sig).dot(F.T) + G.dot(G.T) - Sig
         o.close("von_karman_covariance_is_fixed_point", float(numpy.max(numpy.abs(res))) / b0, 1e-5)
+        # P - Sigma solves the same Lyapunov equation with the residual as its source, i.e. it is the residual
+        # amplified by sum_k |F^k|^2 ~ 1/(1-rho^2): near a unit root (rho = 0.99997 -> 1.4e4, finer sampling -> 1e7) the
+        # distance is rounding noise of A (4.6e-5 as is, 1.6e-7..8.4e-5 under algebraically identical inversions or
+        # one-ulp changes of the covariance), so the tolerance carries that amplification
+        P = linalg.solve_discrete_lyapunov(F, G.dot(G.T))
+        o.close("stationary_covariance_is_von_karman", float(numpy.max(numpy.abs(P - Sig))) / b0,
+                1e-5 / (1.0 - rho * rho), detail={"rho": rho})
         # convergence from any start: F^(2^m) -> 0 (repeated squaring), so P_n -> P from every P0
         M = F.copy()
         powers = 0
@@ -329,4 +848,92 @@ def _stability(p):
             worst = max(worst, float(numpy.max(numpy.abs(Pk - P))) / b0)
         o.close("three_starts_meet_at_fixed_point", worst, 1e-6)
     o.outcome([n, nc, round(rho, 9)])
+    return o
+
+
+def _fried_transition(p):
+    """Fried variant: transition matrix T of the whole working array (zero innovation) by basis exhaustion;
+    an eigenvalue of modulus > 1 would make the values overflow after enough steps ("finite after any number")."""
+    from scipy import linalg
+    o = Out()
+    n, slf = p["n"], p["slf"]
+    try:
+        scr, gen, how = _scripted_screen("fried", n, p["atm"], slf)
+        w = getattr(scr, "_scrn", None)
+        if not isinstance(w, numpy.ndarray) or w.ndim != 2:
+            raise _NotClaimed("no working array to exhaust")
+        rows, cols = w.shape
+        T = numpy.zeros((rows * cols, rows * cols))
+        for k in range(rows * cols):
+            img = numpy.zeros((rows, cols))
+            img.reshape(-1)[k] = 1.0
+            _step(scr, gen, img, numpy.zeros(cols), n)
+            w2 = _working(scr, n)
+            if w2 is None or w2.shape != (rows, cols):
+                raise _NotClaimed("working array not observable after the step")
+            T[:, k] = w2.reshape(-1)
+    except linalg.LinAlgError:
+        o.check("construction_outside_domain", True)
+        o.stat("constructions_failed_linalg", 1)
+        return o
+    except _NotClaimed as ex:
+        o.stat("extraction_not_claimed", 1)
+        o.note("extraction_not_claimed", str(ex))
+        return o
+    o.stat("lib_calls", rows * cols)
+    ev = numpy.linalg.eigvals(T)
+    rho = float(numpy.max(numpy.abs(ev)))
+    # piston is carried unchanged (eigenvalue 1, measured 1 +- 2e-15); everything else 0.84-0.95
+    o.close("fried_transition_not_explosive", rho, 1.0 + 1e-9)
+    o.note("fried_second_largest_modulus", float(numpy.sort(numpy.abs(ev))[-2]) if ev.size > 1 else 0.0)
+    o.outcome([n, slf, round(rho, 9)])
+    return o
+
+
+def _newrow(p):
+    """Two screens made from the same scripted draws (same starting screen) are stepped with DIFFERENT scripted draws:
+    the row that appears at index 0 of the exposed screen is 'newly generated', so within a few steps it must differ
+    between the two.  (An exposed window that shows rows generated long ago satisfies every shift clause.)
+    Uses only the public random_seed parameter; claimed only when both screens consulted their script in every step."""
+    from scipy import linalg
+    o = Out()
+    n = p["n"]
+    vals = 1.3 * numpy.sin(0.1 + 1.2345 * numpy.arange(60000))
+    try:
+        ga, gb = _Script(vals), _Script(vals)
+        a = _construct(p["variant"], n, p["atm"], ga, p["sd"])
+        b = _construct(p["variant"], n, p["atm"], gb, p["sd"])
+        same_start = _bytes(a.scrn) == _bytes(b.scrn) and bool(numpy.all(numpy.isfinite(a.scrn)))
+    except linalg.LinAlgError:
+        o.check("construction_outside_domain", True)
+        o.stat("constructions_failed_linalg", 1)
+        return o
+    except Exception as ex:
+        o.stat("scripted_construction_not_claimed", 1)
+        o.note("scripted_construction_not_claimed", repr(ex)[:200])
+        return o
+    if not same_start:
+        o.stat("scripted_construction_not_claimed", 1)
+        return o
+    consulted, differ, old_rows_equal = True, False, None
+    try:
+        for k in range(1, 5):
+            ga.load(numpy.cos(0.3 * k + 0.77 * numpy.arange(4096)))
+            gb.load(numpy.sin(1.9 * k + 0.41 * numpy.arange(4096)) - 0.25)
+            ra, rb = numpy.array(a.add_row()), numpy.array(b.add_row())
+            consulted = consulted and bool(ga.calls) and bool(gb.calls)
+            if k == 1:
+                old_rows_equal = ra.shape == rb.shape and _bytes(ra[1:]) == _bytes(rb[1:])
+            differ = differ or ra.shape != rb.shape or _bytes(ra[0]) != _bytes(rb[0])
+    except Exception as ex:
+        o.stat("scripted_steps_not_claimed", 1)
+        o.note("scripted_steps_not_claimed", repr(ex)[:200])
+        return o
+    o.stat("lib_calls", 10)
+    if not consulted:
+        o.stat("draws_per_step_not_claimed", 1)
+        return o
+    o.check("newest_exposed_row_depends_on_the_steps_draws", differ)
+    o.check("older_exposed_rows_do_not_depend_on_the_steps_draws", bool(old_rows_equal))
+    o.outcome([p["variant"], n, digest(numpy.asarray(a.scrn))])
     return o
